@@ -169,7 +169,11 @@ def append_case(draw):
     mode = draw(st.sampled_from(['iterable', 'generator', 'two_iterables', 'sources', 'sources_flow', 'load_tuple', 'rename']))
     if mode == 'sources_flow':
         # upstream resources carry the automatic names, so the names of the appended ones can collide
-        pkg = draw(tagged_pkg(0, 3, names=['res_1', 'res_2', 'res_3', 'res_4', 'a'], allow_big=False))
+        # (a drawn subset of the first automatic names, in order: [res_1], [res_1, res_3], [res_2] ... so that the renamed
+        # resources run into names that are taken, or that a later resource of the same source brings along)
+        sub = [n for n in ['res_1', 'res_2', 'res_3', 'a'] if draw(st.booleans())]
+        pkg = draw(tagged_pkg(len(sub), len(sub), names=sub, allow_big=False)) if sub else []
+        pkg.sort(key=lambda r: sub.index(r['name']))
     case = {'op': 'append', 'mode': mode, 'pkg': pkg}
     if mode == 'rename':
         if not pkg:
